@@ -123,6 +123,35 @@ MirrorLaw ==
     /\ \A i \in 1..Len(R.vals) : R.vals[i] = RevVal(RM.vals[i])
     /\ DOMAIN R.upd = DOMAIN RM.upd
     /\ \A id \in DOMAIN R.upd : R.upd[id].v = Rev(RM.upd[id].v) /\ R.upd[id].p = RM.upd[id].p
+\* ---- antecedents of the theorems above, named so that MC_CoreVac.tla can show each of them is met somewhere in
+\* the enumerated space (a theorem whose antecedent never holds would be checked vacuously)
+A_Raise == R.k = "raise"
+A_OkConstrained == R.k = "ok" /\ Constrained
+A_Updates == Constrained /\ R.upd # NoUpd
+A_NewObject == Constrained /\ \E i \in 1..Len(R.vals) : IsVObj(R.vals[i]) /\ R.alias[i] = ""
+A_FrameWindow == A_OkConstrained /\ call.op \in {"reverse", "rol", "ror"} /\ WinS < WinE
+A_FrameOneBit == A_OkConstrained /\ ((call.op \in {"set", "invert"} /\ call.sa[1] = "int") \/ (call.op = "setitem" /\ Len(call.xs) = 0))
+A_FrameLength == A_OkConstrained /\ call.op \in {"ilshift", "irshift", "iand", "ior", "ixor"}
+A_PosToEnd == A_OkConstrained /\ IsStream(cls) /\ IsMutable(cls) /\ call.op \in {"append", "iadd"}
+A_PosToZero == A_OkConstrained /\ IsStream(cls) /\ IsMutable(cls) /\ call.op \in {"delitem", "delslice", "setslice", "setitem", "replace"} /\ Len(NewV) # n
+A_PosKept == A_OkConstrained /\ IsStream(cls) /\ IsMutable(cls) /\ call.op \in {"delitem", "delslice", "setslice", "setitem", "replace"} /\ Len(NewV) = n /\ p > 0
+A_PosAfterWrite == A_OkConstrained /\ IsStream(cls) /\ IsMutable(cls) /\ call.op \in {"insert", "overwrite"} /\ Len(XV(objs, call.xs[1])) > 0
+A_ReadOk == IsStream(cls) /\ call.op \in {"readbits", "peekbits"} /\ R.k = "ok" /\ call.ia[1] > 0
+A_ReadFails == IsStream(cls) /\ call.op \in {"readbits", "peekbits"} /\ R.k = "raise" /\ call.ia[1] > n - p
+A_FindHit == IsStream(cls) /\ call.op \in {"find", "rfind"} /\ R.k = "ok" /\ Len(R.vals[1]) > 1
+A_FindMiss == IsStream(cls) /\ call.op \in {"find", "rfind"} /\ R.k = "ok" /\ Len(R.vals[1]) = 1
+A_SearchHit == call.op \in {"find", "rfind"} /\ R.k = "ok" /\ ~lsb /\ Len(R.vals[1]) > 1
+A_Mirror == lsb /\ call.op \notin DirectionKeeping /\ Len(call.va) = 0 /\ Constrained /\ RM.free = {} /\ n > 1
+A_MirrorChanges == A_Mirror /\ R.k = "ok" /\ R # CoreStep(objs, Opts(FALSE), call)
+A_ModeIndependent == call.op \in DirectionKeeping \ {"rol", "ror", "split", "readto"}
+A_Immutable == ~IsMutable(cls)
+Antecedents == [Raise |-> A_Raise, OkConstrained |-> A_OkConstrained, Updates |-> A_Updates, NewObject |-> A_NewObject,
+                FrameWindow |-> A_FrameWindow, FrameOneBit |-> A_FrameOneBit, FrameLength |-> A_FrameLength,
+                PosToEnd |-> A_PosToEnd, PosToZero |-> A_PosToZero, PosKept |-> A_PosKept, PosAfterWrite |-> A_PosAfterWrite,
+                ReadOk |-> A_ReadOk, ReadFails |-> A_ReadFails, FindHit |-> A_FindHit, FindMiss |-> A_FindMiss,
+                SearchHit |-> A_SearchHit, Mirror |-> A_Mirror, MirrorChanges |-> A_MirrorChanges,
+                ModeIndependent |-> A_ModeIndependent, Immutable |-> A_Immutable]
+
 \* shifts and whole-value operations do not depend on the mode at all
 ModeIndependent ==
   (call.op \in DirectionKeeping \ {"rol", "ror", "split", "readto"}) =>
